@@ -1090,7 +1090,35 @@ def check_case(case):  # pylint: disable=too-many-return-statements
         return list(_judge_curve_identifier(case['text']))
     if kind == 'alias':
         return list(_judge_alias(lib.resolve(case['enum'])))
+    if kind == 'observed-hello':
+        return list(_judge_observed_hello(case['groups'], case['formats'], case['suites']))
     raise ValueError(kind)
+
+
+def _judge_observed_hello(groups, formats, suites):
+    """Unknown / GREASE code points of a client hello are preserved bit for bit between parse and compose - also when
+    the application looks at the message in between (ja3(), JSON, Markdown, str, equality)."""
+    from cryptoparser.tls.subprotocol import TlsHandshakeClientHello  # pylint: disable=import-outside-toplevel
+    from vf.ref import tls as R  # pylint: disable=import-outside-toplevel
+    model = {'kind': 'client_hello', 'version': 0x0303, 'random': '5f' + '00' * 31, 'session_id': '',
+             'cipher_suites': list(suites), 'compression_methods': [0],
+             'extensions': [{'ext': 'supported_groups', 'groups': list(groups)},
+                            {'ext': 'ec_point_formats', 'formats': list(formats)}]}
+    wire = R.encode(model)
+    out = lib.call(TlsHandshakeClientHello.parse_exact_size, wire)
+    if not out.ok:
+        return [Finding('member-rejected/observed-hello', {'error': out.signature(), 'wire': wire.hex()[:200]})]
+    hello = out.value
+    import json  # pylint: disable=import-outside-toplevel
+    for observer in (hello.ja3, lambda: json.dumps(hello), lambda: str(hello), lambda: repr(hello), lambda: hello == hello):
+        lib.call(observer)
+    composed = lib.call(hello.compose)
+    if not composed.ok or bytes(composed.value) != wire:
+        return [Finding('list-compose/observed-hello', {
+            'what': 'code points differ after the message was looked at (ja3 / json / markdown / str)',
+            'groups': groups, 'formats': formats, 'suites': suites, 'input': wire.hex()[:240],
+            'composed': bytes(composed.value).hex()[:240] if composed.ok else composed.signature()})]
+    return _NONE
 
 
 # ---------------------------------------------------------------------------------------------------
@@ -1278,6 +1306,22 @@ def _shard_strings(job):  # pylint: disable=too-many-locals,too-many-branches
                     stats.nontriv(('names', entry.name, trial))
                     _record(stats, findings, {'kind': 'names', 'space': entry.name, 'names': trial})
             stats.sample('names', {'kind': 'names', 'space': entry.name, 'names': shuffled[:4]})
+    elif part == 'observed-hello':
+        grease16 = [0x0a0a, 0x1a1a, 0xfafa]
+        cases = []
+        for g in grease16:
+            cases.append({'kind': 'observed-hello', 'groups': [g, 0x0017], 'formats': [0], 'suites': [0x002f]})
+            cases.append({'kind': 'observed-hello', 'groups': [0x0017, g, 0x0018, g], 'formats': [0, 1], 'suites': [g, 0x002f]})
+        for f in (0x0b, 0x2a, 0xfe, 0x7f):
+            cases.append({'kind': 'observed-hello', 'groups': [0x0017], 'formats': [f, 0], 'suites': [0x002f]})
+            cases.append({'kind': 'observed-hello', 'groups': [0xabcd, 0x0017], 'formats': [0, f, 1], 'suites': [0x002f, 0xe001]})
+        for case in cases:
+            stats.evaluations += 1
+            stats.classes['observed-hello'] += 1
+            stats.labels['observed-hello'] += 1
+            stats.nontriv(('observed-hello', repr(case)))
+            _record(stats, check_case(case), case)
+        stats.sample('observed-hello', cases[1])
     elif part == 'host-keys':
         from cryptodatahub.ssh.algorithm import SshEllipticCurveIdentifier, SshHostKeyAlgorithm  # pylint: disable=import-outside-toplevel
         names = [member.value.code for member in SshHostKeyAlgorithm]
@@ -1376,7 +1420,7 @@ def run(ctx):  # pylint: disable=too-many-locals,too-many-branches,too-many-stat
         (complete if full else sampled).append('%s (list of %d-byte codes%s)' % (
             name, con.width, '' if full else ': members, GREASE, boundaries, random'))
     # 4. strings and the alias rule
-    for part in ('alone', 'names', 'host-keys', 'alias'):
+    for part in ('alone', 'names', 'host-keys', 'alias', 'observed-hello'):
         jobs.append(('strings', (part, ctx.derive_seed('strings', part))))
     # big jobs first
     order = sorted(range(len(jobs)), key=lambda i: -_job_weight(jobs[i]))
